@@ -122,6 +122,12 @@ pub fn build_irq_prog(code: u32, sp: u32, data: u32, vectors: &[u8], k_iter: u16
     a.mov_l_imm(3, data);
     a.mov_w_imm(6, k_iter);
     a.label("loop");
+    // a register-indirect jump through a pointer whose upper byte is not zero (only the low 24 bits are an
+    // address): whatever is accepted or trapped afterwards stacks the 24-bit return address, nothing else
+    a.mov_l_label(5, "loop2");
+    a.mov_w_imm(8 + 5, 0x8100 | ((code >> 16) & 0xff) as u16);
+    a.jmp_ind(5);
+    a.label("loop2");
     a.add_l_rr(1, 0);
     a.adds(1, 1);
     a.xor_b_rr(8, 1); // R0L ^ R1H
@@ -219,6 +225,7 @@ pub fn run_irq_replay(args: &Args) -> Result<()> {
     let ns = sched.len();
     let n_random = if tier == "thorough" { 3000 } else { 300 };
     let mut handles = Vec::new();
+    let volume_cap: u64 = if tier == "thorough" { 3_000_000 } else { 250_000 };
     for t in 0..threads {
         let outdir = outdir.clone();
         let sched = sched.clone();
@@ -228,6 +235,11 @@ pub fn run_irq_replay(args: &Args) -> Result<()> {
             let mut nh = 0u64;
             let total = ns + n_random;
             for k in (t..total).step_by(threads) {
+                // a tree on which programs no longer terminate produces step-capped histories: stop early, the
+                // violations are in what has been recorded (a healthy tree stays far below this volume)
+                if th.id > volume_cap {
+                    break;
+                }
                 // schedule: from TLC, or a seeded random longer one
                 let s: Vec<(String, u32)> = if k < ns {
                     sched[k].clone()
